@@ -28,3 +28,8 @@ int *hb_ids() {
   for (i = 0; i < sizeof(h); i++) r[i] = objectp(h[i]) ? member_array(h[i], obs) : -3;
   return r;
 }
+
+// an object without heart beat that raises an uncaught error: from a driver-level apply (boom) or from a call_out
+// processed in the call_out phase of a tick (sched_boom)
+void boom() { add(({ "boom", -1 })); error("C11 unrelated error outside any heart_beat\n"); }
+int sched_boom() { return call_out("boom", 1); }
